@@ -82,9 +82,10 @@ PROPS["C15"] = dict(
     level_text="Theorems for every PMTU, suite and payload size (one datagram within the maximum payload, every datagram within the path MTU, at most 16384 plaintext "
                "bytes, split in order) proved in Coq; the exact list of datagram sizes and of received pieces of every Write/WriteTo is compared with the model, and "
                "an MTU/boundary predicate independent of max_payload is evaluated on them and on the datagram sizes of every handshake.",
-    level_note="Trusted: Coq kernel + vm_compute; hand-written model tied by correspondence. K3 (a buffered handshake flight leaves as one datagram) and K5 (empty WriteTo "
-               "sends nothing) are known findings, proved as _refuted theorems on the model and reported as KNOWN-FINDING.",
-    code_names={1: "fitting-payload-not-exactly-one-datagram", 2: "datagram-exceeds-pmtu", 3: "record-above-16384-plaintext", 4: "empty-payload-no-datagram",
+    level_note="Trusted: Coq kernel + vm_compute; hand-written model tied by correspondence. K5 (empty WriteTo "
+               "sent nothing), K3 (a buffered handshake flight left as one datagram) and F9 are fixed: an empty payload is one empty record (one datagram, one ReadFrom of length 0; Read skips it); "
+               "flights are packed at record boundaries (theorem C15_flight_fits); the packing itself is compared with the code only through the size of every handshake datagram.",
+    code_names={1: "fitting-payload-not-exactly-one-datagram", 2: "datagram-exceeds-pmtu", 3: "record-above-16384-plaintext", 4: "empty-payload-not-exactly-one-datagram",
                 5: "payload-lost-altered-or-short-write", 6: "handshake-datagram-exceeds-pmtu", 7: "handshake-failed", 8: "unexpected-extra-datagram", "hang": "hang"},
     assumptions=["the PMTU admits one payload byte for the suite (min_pmtu)"],
     trusted=["tk.VNet virtual-time network (datagram sizes are what the library hands to PacketConn.WriteTo)"],
